@@ -162,6 +162,10 @@ func oracleC13(op string, a []string) string {
 		if uint8(back.Sst) != byte(sst) || back.Sd != strings.ToLower(string(sd)) {
 			return fmt.Sprintf("FAIL S-NSSAI %d/%q -> IE -> %d/%q", sst, sd, back.Sst, back.Sd)
 		}
+		if r := staleResult(func() []byte { return nasConvert.SnssaiToNas(models.Snssai{Sst: int32(sst), Sd: string(sd)}) },
+			func() []byte { return nasConvert.SnssaiToNas(models.Snssai{Sst: 255, Sd: "ffffff"}) }); r != "" {
+			return "FAIL SnssaiToNas: " + r
+		}
 		return "pass"
 	case "reqnssai":
 		l, err := strconv.Atoi(a[0])
@@ -252,6 +256,10 @@ func oracleC13(op string, a []string) string {
 		}
 		if d := sameTais(got, l); d != "" {
 			return fmt.Sprintf("FAIL TAI list coded %x: %s", w, d)
+		}
+		one := []models.Tai{{PlmnId: &models.PlmnId{Mcc: "999", Mnc: "99"}, Tac: "ffffff"}}
+		if r := staleResult(func() []byte { return nasConvert.TaiListToNas(l) }, func() []byte { return nasConvert.TaiListToNas(one) }); r != "" {
+			return "FAIL TaiListToNas: " + r
 		}
 		return "pass"
 	case "sarea":
